@@ -2,13 +2,15 @@
     Model: Model/JobMachine.v; every op list = every workflow shape, completion order and content
     of the backend cache.  [jnocse] marks a call that opted out (cache_scope=NONE or no provenance).
 
-    NOT PROVED here (decided by the trace correspondence and the implementation oracle only):
-    that every duplicate receives the same result or error as the job that ran, and that each
-    distinct expression reached from one parent job is evaluated once (_pending_expr is not in
-    the model). *)
+    "Every duplicate receives the same result or error" is proved step by step (C06_duplicate_*_partial: the
+    hand-over when the twin settles, the Done and Resolve steps of the duplicate, the same-execution hit), for every
+    state and every variant; it is NOT yet assembled into one statement over whole runs (that needs the phase/event
+    discipline as a further invariant) — the trace correspondence and the implementation oracle check the whole
+    chain on the real scheduler.  NOT PROVED: each distinct expression reached from one parent job is evaluated
+    once (_pending_expr is not in the model). *)
 From Coq Require Import List ZArith Bool Arith Lia.
 From RV Require Import Model.JobMachine Proofs.JobBase Proofs.JobRes Proofs.JobRes3
-  Proofs.JobOnce Proofs.JobOnce2 Proofs.JobOnce3 Proofs.JobCtx.
+  Proofs.JobOnce Proofs.JobOnce2 Proofs.JobOnce3 Proofs.JobCtx Proofs.JobDup.
 Import ListNotations.
 Open Scope list_scope.
 
@@ -48,6 +50,35 @@ Proof.
   intros c ops t j Hs Hin. destruct (both_run c Hs ops) as [_ S].
   destruct (S t j Hin) as (xt & xj & A & B & E & P). exists xt. split; assumption.
 Qed.
+
+(** Every duplicate receives the same result or error — the hand-over steps, for every state of the machine.
+    (1) When job t settles with value v, each job that collapsed into it gets v as its preset result and a Done event. *)
+Theorem C06_duplicate_handed_value_partial : forall c s t v j xj,
+  getj s t <> None -> In j (dups_of s t) -> NoDup (dups_of s t) -> j <> t -> getj s j = Some xj ->
+  getj (settle c s t (Ok v)) j = Some (mark_cached xj (Some v) PCacheQ) /\
+  In (EvDone j) (queue (settle c s t (Ok v))).
+Proof. exact settle_hands_value. Qed.
+
+(** (2) When t settles with error e, each job that collapsed into it is settled with e at once. *)
+Theorem C06_duplicate_handed_error_partial : forall c s t e j xj,
+  getj s t <> None -> In j (dups_of s t) -> NoDup (dups_of s t) -> j <> t -> getj s j = Some xj ->
+  exists y, getj (settle c s t (Ko e)) j = Some y /\ jphase y = PSettled (Ko e).
+Proof. exact settle_hands_error. Qed.
+
+(** (3) The Done event of a job with a preset result queues a Resolve event carrying exactly that result, and
+    (4) a Resolve event settles the job with the value it carries. *)
+Theorem C06_duplicate_done_resolve_partial : forall c s j x v,
+  getj s j = Some x ->
+  (jpreset x = Some v -> In (EvResolve j v) (queue (done_job c s j))) /\
+  (~ In j (dups_of s j) -> exists y, getj (resolve_job c s j v) j = Some y /\ jphase y = PSettled (Ok v)).
+Proof. intros c s j x v Hx. split; [apply done_hands_preset; exact Hx|apply (resolve_settles c s j x v Hx)]. Qed.
+
+(** (5) A job served by the same-execution look-up gets the recorded value as its preset result. *)
+Theorem C06_duplicate_cse_hit_partial : forall c s j x co v,
+  getj s j = Some x -> jnocse x = false -> lookup_pending s (jkey x, jctx x) = None ->
+  cse_eff c s (jkey x) (jctx x) = Some (Ok v) ->
+  exists y, getj (exec_job c s j co) j = Some y /\ jpreset y = Some v.
+Proof. exact exec_cse_hit_hands_value. Qed.
 
 (** As shipped (submitting overwrites the _pending_jobs entry, _finalize_job pops it whoever owns it):
     job 0 runs; job 1, a twin under a parent without provenance, overwrites the entry, finishes and
@@ -97,6 +128,10 @@ Example C06_context_twin_exact :
 Proof. vm_compute. reflexivity. Qed.
 
 Print Assumptions C06_one_submitter_per_key.
+Print Assumptions C06_duplicate_handed_value_partial.
+Print Assumptions C06_duplicate_handed_error_partial.
+Print Assumptions C06_duplicate_done_resolve_partial.
+Print Assumptions C06_duplicate_cse_hit_partial.
 Print Assumptions C06_refuted_context_twin.
 Print Assumptions C06_job_submitted_at_most_once.
 Print Assumptions C06_submitter_stays_visible.
